@@ -29,7 +29,9 @@ RULE = ('templates = trees of ConstantPT holds (1-3 channels, every channel orde
         'entry state, second hold starting bit-exactly at the register value, bare loop index (shared scope object) as left '
         'operand of a sum with a later use in template-dict order, amplitude != 1 and offset != 0 on Set-only and Increment '
         'programs, swap mappings, shadowed loop indices, indices called like channels; reuse of template / program objects; '
-        'index-dependent hold durations (refusal expected).  Real pipeline '
+        'index-dependent hold durations (refusal expected); templates played through a Transformation (global_transformation of '
+        'create_program: Scaling / Offset / ParallelChannel / Linear / chains; ArithmeticPT, ParallelChannelPT, channel swap by MappingPT; '
+        'the case tree carries the denoted voltages, the template is rendered from the pre-image).  Real pipeline '
         'create_program(program_builder=LinSpaceBuilder) -> to_increment_commands -> LinSpaceVM, observation = '
         'history + total time; independent oracle = unrolled default Loop program.  scale cases: the same through '
         'ProgramEntry(program_type=Linspace) with power-of-two amplitudes, dyadic offsets and unused (None) outputs.  '
@@ -157,16 +159,159 @@ def build_template(t, memo=None):
     return _build_template(t, None)
 
 
+# ---- round 5: templates played through a Transformation (family `trafo`): the tree carries the DENOTED voltages, the template is
+# rendered from the pre-image under the transformation
+
+def _vform(v):
+    if v['k'] in ('plain', 'int'):
+        return F(v['v']), {}
+    return F(v['base']), {n: F(c) for n, c in v['coefs'].items()}
+
+
+def _oform(o):
+    if isinstance(o, dict):
+        return F(o['base']), {n: F(c) for n, c in o['coefs'].items()}
+    return F(o), {}
+
+
+def _fadd(f, g):
+    coefs = dict(f[1])
+    for n, c in g[1].items():
+        coefs[n] = coefs.get(n, F(0)) + c
+    return f[0] + g[0], coefs
+
+
+def _fscale(f, k):
+    return f[0] * k, {n: c * k for n, c in f[1].items()}
+
+
+def _vunform(f):
+    coefs = {n: c for n, c in f[1].items() if c != 0}
+    if not coefs:
+        return {'k': 'plain', 'v': fs(f[0])}
+    return {'k': 'aff', 'base': fs(f[0]), 'coefs': {n: fs(c) for n, c in coefs.items()}}
+
+
+def _inv_ops(forms, ops):
+    """forms: channel -> (base, coefs) AFTER the operations (applied first to last); returns the forms before them"""
+    forms = dict(forms)
+    for op in reversed(ops):
+        kind = op[0]
+        if kind == 'scale':
+            for ch, k in op[1].items():
+                if ch in forms:
+                    forms[ch] = _fscale(forms[ch], 1 / F(k))
+        elif kind == 'offset':
+            for ch, o in op[1].items():
+                if ch in forms:
+                    forms[ch] = _fadd(forms[ch], _fscale(_oform(o), F(-1)))
+        elif kind == 'rsub':          # mapping - template: every channel is negated, the channels of the mapping get the offset
+            for ch in list(forms):
+                forms[ch] = _fadd(_oform(op[1].get(ch, '0')), _fscale(forms[ch], F(-1)))
+        elif kind == 'par':
+            for ch in op[1]:
+                forms.pop(ch, None)
+        elif kind == 'chmap':         # MappingPT(channel_mapping={inner: outer}): the outer channel plays the inner one's value
+            forms = {inner: forms[outer] for inner, outer in op[1].items()}
+        elif kind == 'linear':
+            (c0, c1), m = op[1], [[F(x) for x in row] for row in op[2]]
+            det = m[0][0] * m[1][1] - m[0][1] * m[1][0]
+            inv = [[m[1][1] / det, -m[0][1] / det], [-m[1][0] / det, m[0][0] / det]]
+            f0, f1 = forms[c0], forms[c1]
+            forms[c0] = _fadd(_fscale(f0, inv[0][0]), _fscale(f1, inv[0][1]))
+            forms[c1] = _fadd(_fscale(f0, inv[1][0]), _fscale(f1, inv[1][1]))
+        else:
+            raise ValueError(kind)
+    return forms
+
+
+def _preimage(t, ops):
+    k = t['t']
+    if k == 'hold':
+        forms = _inv_ops({ch: _vform(v) for ch, v in t['v'].items()}, ops)
+        h = {x: y for x, y in t.items() if x not in ('v', 'vorder')}
+        h['v'] = {ch: _vunform(f) for ch, f in forms.items()}
+        for ch, v in h['v'].items():
+            if v['k'] == 'aff' and t['v'].get(ch, {}).get('style') == 5:
+                v['style'] = 5            # bare rendering: a coefficient of exactly 1 is the scope object itself
+        return h
+    if k == 'seq':
+        return {'t': 'seq', 'l': [_preimage(x, ops) for x in t['l']]}
+    return dict(t, body=_preimage(t['body'], ops))
+
+
+def _num(x):
+    x = F(x)
+    return int(x) if x.denominator == 1 and abs(x) < 4 and x.numerator % 2 else float(x)
+
+
+def _mk_transformation(ops):
+    import numpy as np
+    from qupulse.program.transformation import (ScalingTransformation, OffsetTransformation, ParallelChannelTransformation,
+                                                LinearTransformation, chain_transformations)
+    ts = []
+    for op in ops:
+        if op[0] == 'scale':
+            ts.append(ScalingTransformation({ch: _num(k) for ch, k in op[1].items()}))
+        elif op[0] == 'offset':
+            ts.append(OffsetTransformation({ch: _num(o) for ch, o in op[1].items()}))
+        elif op[0] == 'par':
+            ts.append(ParallelChannelTransformation({ch: _num(v) for ch, v in op[1].items()}))
+        elif op[0] == 'linear':
+            ts.append(LinearTransformation(np.array([[float(F(x)) for x in row] for row in op[2]]), tuple(op[1]), tuple(op[1])))
+        else:
+            raise ValueError(op[0])
+    return chain_transformations(*ts)
+
+
+def _wrap_template(pt, ops, how):
+    from qupulse.pulses import ParallelChannelPT
+    from qupulse.pulses.arithmetic_pulse_template import ArithmeticPulseTemplate
+    for op in ops:
+        kind = op[0]
+        if kind == 'scale':
+            if how == 'div':
+                pt = ArithmeticPulseTemplate(pt, '/', {ch: float(1 / F(k)) for ch, k in op[1].items()})
+            else:
+                pt = ArithmeticPulseTemplate(pt, '*', {ch: _num(k) for ch, k in op[1].items()})
+        elif kind == 'offset':
+            def expr(o, sign):
+                if isinstance(o, dict):
+                    return ' + '.join(['(%r)' % float(sign * F(o['base']))] + ['(%r)*%s' % (float(sign * F(c)), n) for n, c in o['coefs'].items()])
+                return _num(sign * F(o))
+            if how == 'sub':
+                pt = ArithmeticPulseTemplate(pt, '-', {ch: expr(o, -1) for ch, o in op[1].items()})
+            else:
+                pt = ArithmeticPulseTemplate(pt, '+', {ch: expr(o, 1) for ch, o in op[1].items()})
+        elif kind == 'rsub':
+            pt = ArithmeticPulseTemplate({ch: _num(o) for ch, o in op[1].items()}, '-', pt)
+        elif kind == 'par':
+            pt = ParallelChannelPT(pt, {ch: _num(v) for ch, v in op[1].items()})
+        elif kind == 'chmap':
+            from qupulse.pulses import MappingPT
+            pt = MappingPT(pt, channel_mapping=dict(op[1]))
+        else:
+            raise ValueError(kind)
+    return pt
+
+
 def _build_template(t, memo):
     from qupulse.pulses import ConstantPT, SequencePT, RepetitionPT, ForLoopPT, MappingPT
     k = t['t']
+    if k == 'wrap':
+        return _wrap_template(build_template(_preimage(t['body'], t['ops']), memo), t['ops'], t.get('how'))
     if k == 'hold':
         remap = {name: (m['var'], F(m['scale']), F(m['shift'])) + ((m['var2'], F(m['scale2']), F(m['shift2'])) if 'var2' in m else ())
                  for name, m in t.get('via_map', {}).items()}
         dur = F(t['dur'])
         dur = int(dur) if dur.denominator == 1 else float(dur)
         # 'vorder': the order of the template's amplitude dict = the order in which the channel expressions are evaluated
-        pt = ConstantPT(dur, {ch: volt_expr(t['v'][ch], remap) for ch in t.get('vorder', t['v'])})
+        meas = [('m', 0, 1)] if t.get('meas') and dur >= 1 else None
+        if t.get('split') and len(t['v']) > 1 and not remap:
+            from qupulse.pulses import AtomicMultiChannelPT
+            pt = AtomicMultiChannelPT(*[ConstantPT(dur, {ch: volt_expr(t['v'][ch], remap)}) for ch in t.get('vorder', t['v'])], measurements=meas)
+        else:
+            pt = ConstantPT(dur, {ch: volt_expr(t['v'][ch], remap) for ch in t.get('vorder', t['v'])}, measurements=meas)
         if remap:
             pm = {}
             for name, r in remap.items():
@@ -240,6 +385,8 @@ def g_src(t, channels, idxs=(), subst=()):
                                         g_src(t['body'], channels, idxs + (t['idx'],), subst))
     if k == 'remap':
         return g_src(t['body'], channels, idxs, ((t['idx'], (F(t['scale']), F(t['shift']))),) + tuple(subst))
+    if k == 'wrap':
+        return g_src(t['body'], channels, idxs, subst)
     raise ValueError(k)
 
 
@@ -258,6 +405,8 @@ def g_src2(t, channels, idxs=()):
     if k == 'remap':
         return '(S2Remap %s %s %s %s)' % (vlib.gnat(idxs.index(t['idx'])), gQ(F(t['scale'])), gQ(F(t['shift'])),
                                           g_src2(t['body'], channels, idxs))
+    if k == 'wrap':
+        return g_src2(t['body'], channels, idxs)
     raise ValueError(k)
 
 
@@ -544,13 +693,13 @@ def gen_cases(rng, tier, ctx):
     cases.extend(small)
     n = {'quick': 1, 'thorough': 8}[tier]
     # A: iterations and sequences only (the class covered by the staircase theorem and its generalisation)
-    for _ in range(260 if tier == 'quick' else 300 * n):   # round 4: 40 + 40 random cases made room for two deterministic families
+    for _ in range(240 if tier == 'quick' else 300 * n):   # round 4/5: random cases made room for deterministic families
         chans = CHANNEL_POOL[:rng.choice([1, 1, 2, 2, 3])]
         opts = {'counts': [1], 'p_int': 0.0}
         tree = gen_tree_norep(rng, chans, (), rng.choice([2, 3, 3, 4]), opts, [rng.choice([12, 30, 60])])
         cases.append(mk_run(rng, tree, chans))
     # B: everything
-    for _ in range(410 if tier == 'quick' else 450 * n):
+    for _ in range(380 if tier == 'quick' else 450 * n):
         chans = CHANNEL_POOL[:rng.choice([1, 1, 2, 2, 3])]
         tree = gen_tree(rng, chans, (), rng.choice([2, 3, 3, 4]), {}, [rng.choice([12, 30, 60])])
         cases.append(mk_run(rng, tree, chans))
@@ -696,6 +845,15 @@ def drive_builder(builder, t):
         raise ValueError(k)
 
 
+def _case_template(case):
+    """the template of a case and the keyword arguments of create_program (`gt`: the tree denotes the voltages AFTER the global
+    transformation; the template is rendered from the pre-image)"""
+    memo = {} if case.get('share') else None
+    if case.get('gt'):
+        return build_template(_preimage(case['tree'], case['gt']), memo), {'global_transformation': _mk_transformation(case['gt'])}
+    return build_template(case['tree'], memo), {}
+
+
 def run_impl(case):
     import warnings
     warnings.simplefilter('ignore')
@@ -708,9 +866,9 @@ def run_impl(case):
         return run_impl_sexpr(case)
     try:
         with vlib.time_limit(20):
-            pt = build_template(case['tree'], {} if case.get('share') else None)
+            pt, kw = _case_template(case)
             params = params_of(case['tree'])
-            default = pt.create_program(parameters=params)
+            default = pt.create_program(parameters=params, **kw)
             if default is None:
                 dflt, dtot = [], '0'
             else:
@@ -723,13 +881,13 @@ def run_impl(case):
     try:
         with vlib.time_limit(20):
             if not case.get('reuse'):
-                pt = build_template(case['tree'], {} if case.get('share') else None)
+                pt, kw = _case_template(case)
             if case.get('direct'):
                 builder = LinSpaceBuilder(tuple(chans))
                 drive_builder(builder, case['tree'])
                 prog = builder.to_program()
             else:
-                prog = pt.create_program(parameters=params, program_builder=LinSpaceBuilder(tuple(chans)))
+                prog = pt.create_program(parameters=params, program_builder=LinSpaceBuilder(tuple(chans)), **kw)
             if prog is None:
                 obs.update(hist=[], total='0')
                 return obs
@@ -1043,6 +1201,15 @@ def histogram_keys(case, obs):
         keys.append('hist_len:%s' % ('0' if not obs['hist'] else '1-9' if len(obs['hist']) < 10 else '10-49' if len(obs['hist']) < 50 else '50+'))
     else:
         keys.append('obs:crash')
+    if case.get('gt'):
+        keys.extend('global_transformation:' + op[0] for op in case['gt'])
+    for x in walk(case['tree']):
+        if x['t'] == 'wrap':
+            keys.extend('wrapped:' + op[0] for op in x['ops'])
+        if x['t'] == 'hold' and x.get('split'):
+            keys.append('hold_as_AtomicMultiChannelPT')
+        if x['t'] == 'hold' and x.get('meas'):
+            keys.append('hold_with_measurement')
     if case.get('reuse'):
         keys.append('reused_objects')
     if case['kind'] == 'scale' and any(h[0] is None for h in case['hw']):
@@ -1229,7 +1396,7 @@ def _shrink_candidates(case):
 
 
 MANIFEST = {
-    'level_text': 'Full proof + exact correspondence. Proved in Coq (unbounded, closed under the global context): '
+    'level_text': 'Proof of partial correctness (plus the VM half of totality) + exact correspondence. Proved in Coq (unbounded, closed under the global context): '
                   '(1) C17_staircase: for every source built from constant holds (plain / int / affine voltages, any number of '
                   'channels), sequences, iterations with any start/stop/step and repetitions of any count, nested to any depth: '
                   'whenever the modelled pipeline LinSpaceBuilder -> to_increment_commands -> LinSpaceVM returns a history it is '
@@ -1251,7 +1418,14 @@ MANIFEST = {
                   'the model (C17_add_node_is_source, C17_to_increment_commands_is_source, C17_builder_is_source); C17_staircase_source_all: the '
                   'staircase theorem on translated code only (builder, translator, VM), for sources with loop indices by name; SimpleExpression '
                   'arithmetic (operators + value) is modelled, translated and proved to keep the value of every expression tree.  (5) refutation: the '
-                  'round-1 statement is false without the key-collision guard.  The model is tied to /repo on every run by the exact '
+                  'round-1 statement is false without the key-collision guard.  Round 5 (audit): (6) C17_staircase_total_if_translated: if the '
+                  'translator returns a command list, the VM runs it to the end (no KeyError / IndexError), returns the same history for every '
+                  'fuel above a bound, and that history is the staircase; the builder never fails.  (7) index rebinding mappings: the substitution '
+                  'used in (2) computes an independent denotation over rational index environments (C17_scope_flatten_is_denotation).  NOT proved: '
+                  'that the translator itself returns (no AssertionError) -- tested on every case; that the default Loop program plays the '
+                  'staircase of the source term -- compared on every case; the tolerance clause for slopes within 1e-9 and float rounding -- '
+                  'tested on a decimal stream; templates played through a Transformation and parameter / channel mappings -- tested only '
+                  '(family trafo, new in round 5; never generated before).  The model is tied to /repo on every run by the exact '
                   'correspondence check (real pipeline vs model vs independently unrolled default Loop program).',
     'level_note': 'Trusted: Coq kernel/vm_compute; harness rendering of source terms to templates (cross-checked against the '
                   'default program on every case); qupulse Loop builder as reference; float arithmetic is exact on the generated '
